@@ -313,9 +313,12 @@ func (s *sender) onLoss(ackNo uint32) uint32 {
 				missingFrameNo -= 1 // increment the index from dup ack = 2
 			}
 		}
-	} else {
-		missingFrameNo = ackNo
 	}
+	// From the fifth consecutive duplicate on, the retransmission timer is in
+	// charge. Asking for the frame again on every further duplicate makes each
+	// retransmission (which the peer acknowledges, again with this number)
+	// trigger the next one: a loop that a path which duplicates packets
+	// amplifies until the duplicate limit gives the tube up without any loss.
 
 	if common.Debug {
 		logrus.Debugf("I received the ack %v, n %v times, windowS %v, ssThresh %v", ackNo, s.senderWindow.duplicatedAckCounter, s.senderWindow.windowSize, s.senderWindow.ssThresh)
